@@ -95,6 +95,61 @@ class PairTransport(dchan.FakeTransport):
         self._channels.delete(chanid)
 
 
+class _NoSock:
+    def settimeout(self, t): pass
+    def close(self): pass
+    def send(self, b): return len(b)
+    def recv(self, n): return b""
+    def getpeername(self): return ("fake", 0)
+
+
+def open_via_transport(how, chanid, peer_chanid, own_win, own_pkt, peer_win, peer_pkt):
+    """a Channel whose local and remote limits were set by the real Transport code, not by the harness:
+    how = "peer":  the peer's CHANNEL_OPEN (announcing peer_win / peer_pkt) goes through Transport._parse_channel_open
+    how = "local": Transport.open_channel(window_size=own_win, max_packet_size=own_pkt); the peer's OPEN_CONFIRMATION
+                   (peer_win / peer_pkt) goes through Transport._parse_channel_open_success"""
+    import paramiko
+    from paramiko.message import Message
+    from paramiko.common import OPEN_SUCCEEDED, cMSG_CHANNEL_OPEN
+    t = paramiko.Transport(_NoSock())
+    t.active = True
+    t.clear_to_send.set()
+    t._channel_counter = chanid
+    out = []
+    if how == "peer":
+        class Srv(paramiko.ServerInterface):
+            def check_channel_request(self, kind, cid):
+                return OPEN_SUCCEEDED
+        t.server_mode, t.server_object = True, Srv()
+        t.default_window_size, t.default_max_packet_size = own_win, own_pkt
+        t._send_message = out.append
+        m = Message()
+        m.add_string("session")
+        m.add_int(peer_chanid)
+        m.add_int(peer_win)
+        m.add_int(peer_pkt)
+        m.rewind()
+        t._parse_channel_open(m)
+        ch = t._channels.get(chanid)
+    else:
+        def hand(m0):
+            out.append(m0)
+            if m0.asbytes()[:1] == cMSG_CHANNEL_OPEN:
+                r = Message()
+                r.add_int(chanid)
+                r.add_int(peer_chanid)
+                r.add_int(peer_win)
+                r.add_int(peer_pkt)
+                r.rewind()
+                t._parse_channel_open_success(r)
+        t._send_user_message = hand
+        ch = t.open_channel("session", window_size=own_win, max_packet_size=own_pkt, timeout=2)
+    if ch is None:
+        raise RuntimeError("Transport did not open the channel (%s)" % how)
+    ch._opened_by = t          # keep the transport (and its weak ChannelMap entry) alive
+    return ch
+
+
 class World:
     """both ends of one channel"""
     def __init__(self, S, par):
@@ -111,13 +166,19 @@ class World:
         for X in "AB":
             Y = "B" if X == "A" else "A"
             ft = PairTransport(self, X)
-            ch = HarnessChannel(ids[X])
+            how = par.get("open", {}).get(X)
+            if how:          # limits set by the real Transport.open_channel / _parse_channel_open(_success)
+                ch = open_via_transport(how, ids[X], ids[Y], par["win"][X], par["pkt"][X], par["win"][Y], par["pkt"][Y])
+                ch.__class__ = HarnessChannel
+            else:
+                ch = HarnessChannel(ids[X])
             ch.lock.__class__ = ChanLock
             ch.in_buffer._lock.__class__ = PipeLock
             ch.in_stderr_buffer._lock.__class__ = PipeLock
             ch._set_transport(ft)
-            ch._set_window(par["win"][X], par["pkt"][X])
-            ch._set_remote_channel(ids[Y], par["win"][Y], par["pkt"][Y])
+            if not how:
+                ch._set_window(par["win"][X], par["pkt"][X])
+                ch._set_remote_channel(ids[Y], par["win"][Y], par["pkt"][Y])
             ft._channels.put(ids[X], ch)
             tm = par["tmo"][X]
             ch.settimeout({"block": None, "timed": 0.5, "nonblock": 0.0}[tm])
